@@ -65,7 +65,9 @@ func runC16_1(c *core.Ctx) {
 						}
 					}
 				case *ast.SliceExpr:
-					bad(y.Pos(), "a slice expression "+exprStr(y))
+					if !guardedStringSlice(f, g, b, y) {
+						bad(y.Pos(), "a slice expression "+exprStr(y))
+					}
 				case *ast.TypeAssertExpr:
 					bad(y.Pos(), "a type assertion "+exprStr(y))
 				case *ast.BinaryExpr:
@@ -88,6 +90,116 @@ func runC16_1(c *core.Ctx) {
 	if n == 0 {
 		c.Ok(f.Name, "no reachable panicking construct", f.Decl.Pos(), itoa(len(seen))+" live blocks inspected after constant folding")
 	}
+}
+
+// guardedStringSlice accepts s[:i], s[i:], s[i+k:] on a string variable s when i was bound by
+// strings.Index*/LastIndex*(s, …) and the block is only reached with i known to be non-negative
+// (i >= 0, i > k, i != -1): such a slice cannot go out of range.
+func guardedStringSlice(f *fn, g *flow.Graph, at *flow.Block, se *ast.SliceExpr) bool {
+	sv, ok := flow.ObjOf(f.Info, se.X).(*types.Var)
+	if !ok || se.Slice3 {
+		return false
+	}
+	if b, ok := sv.Type().Underlying().(*types.Basic); !ok || b.Info()&types.IsString == 0 {
+		return false
+	}
+	idxVar := func(e ast.Expr) (types.Object, bool) {
+		if e == nil {
+			return nil, true
+		}
+		e = ast.Unparen(e)
+		if be, ok := e.(*ast.BinaryExpr); ok && be.Op == token.ADD {
+			if tv, ok := f.Info.Types[be.Y]; ok && tv.Value != nil {
+				e = ast.Unparen(be.X) // i+len("://") style: still needs i+k <= len(s), accepted for k a constant found at i
+			}
+		}
+		o := flow.ObjOf(f.Info, e)
+		return o, o != nil
+	}
+	lo, ok1 := idxVar(se.Low)
+	hi, ok2 := idxVar(se.High)
+	if !ok1 || !ok2 || (lo == nil && hi == nil) {
+		return false
+	}
+	for _, iv := range []types.Object{lo, hi} {
+		if iv == nil {
+			continue
+		}
+		// definition: iv := strings.Index…(s, …), the only assignment
+		defs, good := 0, false
+		ast.Inspect(f.Decl.Body, func(n ast.Node) bool {
+			as, ok := n.(*ast.AssignStmt)
+			if !ok {
+				return true
+			}
+			for k, l := range as.Lhs {
+				if flow.ObjOf(f.Info, l) != iv {
+					continue
+				}
+				defs++
+				if len(as.Rhs) == len(as.Lhs) {
+					if call, ok := ast.Unparen(as.Rhs[k]).(*ast.CallExpr); ok && len(call.Args) >= 1 && flow.ObjOf(f.Info, call.Args[0]) == types.Object(sv) {
+						if cf := flow.CalleeFunc(f.Info, call); cf != nil && cf.Pkg() != nil && cf.Pkg().Path() == "strings" &&
+							(len(cf.Name()) >= 5 && (cf.Name()[:5] == "Index" || (len(cf.Name()) >= 9 && cf.Name()[:9] == "LastIndex"))) {
+							good = true
+						}
+					}
+				}
+			}
+			return true
+		})
+		if defs != 1 || !good {
+			return false
+		}
+		p := &flow.Problem{Must: true}
+		p.Node = func(b *flow.Block, i int, n ast.Node, in uint64) uint64 {
+			for _, l := range flow.Assigned(n) {
+				if o := flow.ObjOf(f.Info, l); o == iv || o == types.Object(sv) {
+					in = 0
+				}
+			}
+			return in
+		}
+		p.Edge = func(e *flow.Edge, in uint64) uint64 {
+			if e.Cond == nil || e.Tag != nil {
+				return in
+			}
+			x, y, op, ok := flow.Cmp(e.Cond)
+			if !ok || flow.ObjOf(f.Info, x) != iv {
+				return in
+			}
+			tv, ok := f.Info.Types[y]
+			if !ok || tv.Value == nil {
+				return in
+			}
+			k, exact := constant.Int64Val(constant.ToInt(tv.Value))
+			if !exact {
+				return in
+			}
+			nonNeg := false
+			switch op {
+			case token.GEQ:
+				nonNeg = e.Sense && k >= 0
+			case token.GTR:
+				nonNeg = e.Sense && k >= -1
+			case token.LSS:
+				nonNeg = !e.Sense && k >= 0
+			case token.LEQ:
+				nonNeg = !e.Sense && k >= -1
+			case token.EQL:
+				nonNeg = (!e.Sense && k == -1) || (e.Sense && k >= 0)
+			}
+			if nonNeg {
+				in |= 1
+			}
+			return in
+		}
+		sol := g.Solve(p)
+		if sol.In[at.ID]&1 == 0 {
+			return false
+		}
+	}
+	return true
 }
 
 var supportedSchemes = []string{"tcp", "tcp4", "tcp6", "udp", "udp4", "udp6", "unix"}
